@@ -1,5 +1,5 @@
 INIT Init
 NEXT Next
-CONSTANT MaxLen = 4
+CONSTANT MaxLen = 5
 INVARIANTS RoundTrip PlainRoundTrip Total SameLanguage SciShape
 CHECK_DEADLOCK FALSE
